@@ -198,7 +198,7 @@ def r6(cx):
 @rule("C04", "R7", "a query is evaluated over exactly the chunks selected for it: the registration rules of C10 that the current code satisfies (serialised registration, short-cut only on the "
       "same set, execution only after the query's own registration)")
 def r7(cx):
-    _include(cx, "C10", ["r2", "r3"], "per-query binding")
+    _include(cx, "C10", ["r2", "r3", "r5"], "per-query binding")
 
 
 @rule("C04", "R8", "the answer does not depend on cache temperature: the transparency rules of C16 (key = object path, only fetched content inserted, every tier keyed, options bypass, "
